@@ -17,12 +17,53 @@ static void rel(bool ok, const char* relation, const std::string& subject)
         g_st->samples.push_back("{\"relation\":\"" + std::string(relation) + "\",\"subject\":\"" + subject + "\",\"holds\":" + (ok ? "true" : "false") + "}");
 }
 
+// register width in bytes, written down from the ISA definitions (independent of every sizeof in the library):
+// SSE family 16, AVX family 32, AVX-512 family 64, emulated<N> N/8
+template <class A>
+struct width_of
+{
+    static constexpr size_t value = std::is_base_of<xs::avx512f, A>::value ? 64 : std::is_base_of<xs::avx, A>::value ? 32
+        : std::is_base_of<xs::sse2, A>::value                                                                         ? 16
+                                                                                                                      : 0;
+};
+#if XSIMD_WITH_EMULATED
+template <size_t N>
+struct width_of<xs::emulated<N>>
+{
+    static constexpr size_t value = N / 8;
+};
+#endif
+
 template <class A, class T>
 static void per_type(const char* t)
 {
     using B = xs::batch<T, A>;
     using BB = xs::batch_bool<T, A>;
     std::string s = std::string(A::name()) + "/" + t;
+    rel(width_of<A>::value != 0 && B::size * sizeof(T) == width_of<A>::value, "size*sizeof(T) == architectural register width (16/32/64 bytes, emulated<N>: N/8)", s);
+    rel(std::is_same<typename B::register_type, typename xs::types::simd_register<T, A>::register_type>::value, "batch::register_type is the architecture's register for T", s);
+    rel(!xs::is_batch_complex<B>::value && !xs::is_batch<BB>::value, "is_batch_complex / is_batch are false for real batches / masks", s);
+    rel(std::is_same<xs::scalar_type_t<B>, T>::value && std::is_same<xs::scalar_type_t<T>, T>::value, "scalar_type_t of a batch and of a scalar", s);
+    rel(std::is_same<xs::mask_type_t<B>, BB>::value && std::is_same<xs::mask_type_t<T>, bool>::value, "mask_type_t of a batch and of a scalar", s);
+    rel(std::is_same<xs::as_logical_t<B>, BB>::value, "as_logical_t<batch> is its batch_bool", s);
+    rel(std::is_same<xs::as_integer_t<B>, xs::batch<xs::as_integer_t<T>, A>>::value, "as_integer_t<batch> keeps architecture and lane count", s);
+    rel(std::is_same<xs::as_unsigned_integer_t<B>, xs::batch<xs::as_unsigned_integer_t<T>, A>>::value, "as_unsigned_integer_t<batch> keeps architecture and lane count", s);
+    rel(xs::has_simd_register<T, A>::value, "has_simd_register<T, A>", s);
+    rel(BB::size * sizeof(T) == width_of<A>::value, "batch_bool lane count * sizeof(T) == register width", s);
+    if constexpr (std::is_integral<T>::value)
+    {
+        rel(sizeof(xs::as_signed_integer_t<T>) == sizeof(T) && std::is_signed<xs::as_signed_integer_t<T>>::value, "as_signed_integer_t: signed integer of the same width", s);
+        if constexpr (std::is_same<T, int32_t>::value || std::is_same<T, int64_t>::value) // the two specialisations the library defines
+            rel(std::is_same<xs::as_float_t<B>, xs::batch<xs::as_float_t<T>, A>>::value && sizeof(xs::as_float_t<T>) == sizeof(T) && std::is_floating_point<xs::as_float_t<T>>::value && xs::batch<xs::as_float_t<T>, A>::size == B::size, "as_float_t: floating type of the same width and lane count", s);
+    }
+    if constexpr (std::is_same<A, xs::default_arch>::value)
+    {
+        // the single-argument traits are defined on the default architecture
+        rel(std::is_same<xs::simd_type<T>, xs::batch<T>>::value && xs::simd_traits<T>::size == xs::batch<T>::size, "simd_traits<T>: type and size of the default batch", s);
+        rel(std::is_same<xs::simd_bool_type<T>, xs::batch_bool<T>>::value, "simd_traits<T>::bool_type", s);
+        rel(std::is_same<xs::revert_simd_type<xs::batch<T>>, T>::value && xs::revert_simd_traits<xs::batch<T>>::size == xs::batch<T>::size, "revert_simd_traits<batch<T>>", s);
+        rel(std::is_same<xs::revert_simd_type<T>, T>::value && xs::revert_simd_traits<T>::size == xs::batch<T>::size, "revert_simd_traits<T>", s);
+    }
     rel(B::size * sizeof(T) == sizeof(typename xs::types::simd_register<T, A>::register_type) || sizeof(T) * B::size == sizeof(B), "size*sizeof(T) == register width", s);
     rel(B::size * sizeof(T) == sizeof(B), "batch occupies exactly size*sizeof(T) bytes", s);
     rel(BB::size == B::size, "batch_bool lane count == batch lane count", s);
@@ -70,6 +111,21 @@ static void per_float_type(const char* t)
     rel(std::is_same<xs::simd_return_type<bool, std::complex<T>, A>, xs::batch_bool<T, A>>::value, "simd_return_type<bool,complex> is the mask of the same architecture", s);
     rel(xs::simd_return_type<bool, std::complex<T>, A>::size == BC::size, "simd_return_type<bool,complex> lane count", s);
     rel(std::is_same<typename BC::arch_type, A>::value, "complex batch arch_type", s);
+    rel(xs::is_batch_complex<BC>::value && xs::is_batch<BC>::value && !xs::is_batch_bool<BC>::value, "is_batch_complex / is_batch for a complex batch", s);
+    rel(std::is_same<typename BC::value_type, std::complex<T>>::value && std::is_same<xs::scalar_type_t<BC>, std::complex<T>>::value, "complex batch value_type / scalar_type_t", s);
+    rel(std::is_same<xs::mask_type_t<BC>, xs::batch_bool<T, A>>::value, "mask_type_t of a complex batch", s);
+    rel(BC::size * sizeof(T) == width_of<A>::value, "complex lane count * sizeof(T) == register width", s);
+    rel(xs::has_simd_register<std::complex<T>, A>::value, "has_simd_register<complex<T>, A>", s);
+    {
+        // converting return types: integer of the same width <-> floating
+        using I = xs::as_integer_t<T>;
+        rel(std::is_same<xs::simd_return_type<I, T, A>, B>::value, "simd_return_type<integer of the same width, T>", s);
+        rel(std::is_same<xs::simd_return_type<T, I, A>, xs::batch<I, A>>::value, "simd_return_type<T, integer of the same width>", s);
+    }
+    if constexpr (std::is_same<A, xs::default_arch>::value)
+    {
+        rel(std::is_same<xs::simd_type<std::complex<T>>, xs::batch<std::complex<T>>>::value && xs::simd_traits<std::complex<T>>::size == xs::batch<T>::size, "simd_traits<complex<T>>", s);
+    }
 }
 
 template <class A>
@@ -140,6 +196,46 @@ static void order(xs::arch_list<As...>, const char* list)
             mx = a;
     rel(xs::arch_list<As...>::alignment() == mx, "arch_list::alignment() is the maximum member alignment", list);
     rel(std::is_same<typename xs::arch_list<As...>::best, typename std::tuple_element<0, std::tuple<As...>>::type>::value, "arch_list::best is the head", list);
+}
+
+// list operations: contains, for_each (each member once, in order), add, extend
+template <class... As>
+static void list_ops(xs::arch_list<As...>, const char* name)
+{
+    using L = xs::arch_list<As...>;
+    const bool has[] = { L::template contains<As>()..., true };
+    bool all = true;
+    for (bool h : has)
+        all = all && h;
+    rel(all, "arch_list::contains is true for every member", name);
+    struct not_an_arch : xs::generic
+    {
+    };
+    rel(!L::template contains<not_an_arch>(), "arch_list::contains is false for a non-member", name);
+    std::vector<std::string> seen;
+    L::for_each([&](auto a) { seen.push_back(decltype(a)::name()); });
+    const char* names[] = { As::name()..., "" };
+    bool same = seen.size() == sizeof...(As);
+    for (size_t i = 0; same && i < seen.size(); ++i)
+        same = seen[i] == names[i];
+    rel(same, "arch_list::for_each visits every member exactly once, in list order", name);
+    rel(std::is_same<typename L::template add<not_an_arch>, xs::arch_list<As..., not_an_arch>>::value, "arch_list::add appends", name);
+    rel(std::is_same<typename L::template extend<not_an_arch, xs::generic>, xs::arch_list<As..., not_an_arch, xs::generic>>::value, "arch_list::extend appends in order", name);
+}
+// supported_architectures is all_architectures filtered by supported(), order preserved
+template <class... Ss, class... As>
+static void is_filtered(xs::arch_list<Ss...>, xs::arch_list<As...>)
+{
+    std::vector<std::string> want, got;
+    const char* an[] = { As::name()..., "" };
+    const bool as[] = { As::supported()..., false };
+    for (size_t i = 0; i < sizeof...(As); ++i)
+        if (as[i])
+            want.push_back(an[i]);
+    const char* sn[] = { Ss::name()..., "" };
+    for (size_t i = 0; i < sizeof...(Ss); ++i)
+        got.push_back(sn[i]);
+    rel(want == got, "supported_architectures == all_architectures filtered by supported(), same order", VARCH_NAME);
 }
 
 // arch_list::alignment() must be the maximum for ANY list, not only best-first ones
@@ -217,16 +313,30 @@ void vh::unit_main()
         return;
     // every architecture this build supports, not only the best one: traits must honour a non-default architecture
     xs::supported_architectures::for_each([](auto a) { per_arch<decltype(a)>(); });
+    // the architecture under test itself when the lists do not contain it (emulated<N> is in none of them)
+    if (!xs::supported_architectures::contains<ARCH>())
+        per_arch<ARCH>();
     arbitrary_lists();
     order(xs::supported_architectures {}, "supported_architectures");
     order(xs::all_x86_architectures {}, "all_x86_architectures");
     order(xs::all_architectures {}, "all_architectures");
+    list_ops(xs::supported_architectures {}, "supported_architectures");
+    list_ops(xs::all_x86_architectures {}, "all_x86_architectures");
+    list_ops(xs::all_architectures {}, "all_architectures");
+    list_ops(xs::arch_list<xs::sse2> {}, "sse2");
+    list_ops(xs::arch_list<> {}, "empty list");
+    is_filtered(xs::supported_architectures {}, xs::all_architectures {});
+    rel(std::is_same<xs::arch_list<>::best, xs::unavailable>::value && xs::arch_list<>::alignment() == 0, "empty list: best is unavailable, alignment 0", "empty list");
     rel(std::is_same<xs::best_arch, xs::supported_architectures::best>::value, "best_arch heads supported_architectures", VARCH_NAME);
     rel(xs::supported_architectures::contains<xs::default_arch>(), "default_arch is a supported architecture", VARCH_NAME);
     rel(xs::default_arch::alignment() <= xs::supported_architectures::alignment(), "default alignment <= list alignment", VARCH_NAME);
     sized_all<float>("float", std::make_index_sequence<128> {});
     sized_all<double>("double", std::make_index_sequence<128> {});
     sized_all<int8_t>("int8_t", std::make_index_sequence<128> {});
+    sized_all<uint8_t>("uint8_t", std::make_index_sequence<128> {});
+    sized_all<int16_t>("int16_t", std::make_index_sequence<128> {});
+    sized_all<uint32_t>("uint32_t", std::make_index_sequence<128> {});
+    sized_all<uint64_t>("uint64_t", std::make_index_sequence<128> {});
     sized_all<uint16_t>("uint16_t", std::make_index_sequence<128> {});
     sized_all<int32_t>("int32_t", std::make_index_sequence<128> {});
     sized_all<int64_t>("int64_t", std::make_index_sequence<128> {});
